@@ -5,6 +5,8 @@ from . import dyn, store
 def run(ctx):
     dyn.rule_err_capability(ctx)
     dyn.rule_noop_insertion(ctx)
+    dyn.rule_cache_barriers(ctx)
+    dyn.rule_log_and_replay(ctx)
     dyn.rule_dummy_delegation(ctx)
     store.rule_error_before_mutation(ctx)
     store.rule_idempotent_insertions(ctx)
